@@ -1,7 +1,9 @@
 import MoneroModel.Proofs.ScanTop
+import MoneroModel.Proofs.ScanMore
+import MoneroModel.Proofs.ExtraComplete
 import MoneroModel.Proofs.GroupInstance
 import MoneroModel.Proofs.EdwardsLawful
-open Monero Monero.Scan
+open Monero Monero.Scan Monero.Extra
 /-! # C07 — output scanning reports exactly the outputs addressed to the wallet
 
 Model: `MoneroModel/Model/Scan.lean` (`checkOutputsTx` / `checkOutputsPrefix` / `checkOutputsWith`, the iterator pipeline
@@ -229,6 +231,246 @@ theorem C07_apis_agree (decP : Bytes → Option P) (t : Tx) (v : Nat) (S : P) (a
     checkOutputsTxWith ops decP t (Checker.new ops v S a b c d) = checkOutputsWith ops decP t.pre (Checker.new ops v S a b c d) t.base :=
   ⟨rfl, rfl, rfl⟩
 
+/-! ### Negative clauses, exact index, which output determines the error (added after the audit) -/
+
+/-- **Not addressed ⇒ not reported** (the general negative clause: contrapositive of `C07_reported_iff`). An output at position
+`i` that neither the main key nor the additional key at position `i` addresses for an in-range index — an output for another
+wallet, for another position, for an out-of-range subaddress, with a non-matching tag — is not in an `Ok` result. What
+remains an assumption (DESIGN §8) is only that such outputs do not satisfy the relation by accident. -/
+theorem C07_not_addressed_not_reported (L : Lawful ops) (decP : Bytes → Option P) (p : Prefix) (v : Nat) (S : P) (a b c d : Nat)
+    (base : Option Base) (ws : List Owned) (h : checkOutputsPrefix ops decP p v S a b c d base = .ok ws)
+    (Rm : Bytes) (hRm : mainKey ops p = some Rm) (i : Nat) (hi : i < p.outs.length)
+    (hmain : ¬ AddressedVia ops v S a b c d p.outs[i] i Rm)
+    (hadd : ∀ K, (addKeys ops p)[i]? = some K → ¬ AddressedVia ops v S a b c d p.outs[i] i K) :
+    ¬ ∃ w ∈ ws, w.index = i := by
+  intro hrep
+  rcases (C07_reported_iff L decP p v S a b c d base ws h Rm hRm i hi).mp hrep with h1 | ⟨K, hK, h2⟩
+  · exact hmain h1
+  · exact hadd K hK h2
+
+/-- **Wrong view tag ⇒ not reported, unconditionally.** If the output at position `i` carries a view tag `t` that differs
+from the tag derived from the main key and from the tag derived from the additional key at position `i` (when there is
+one), position `i` is not reported — whatever its key is (even the right one-time key for this wallet). No hash or
+discrete-log assumption is involved: the comparison is on the whole byte. -/
+theorem C07_wrong_tag_not_reported (L : Lawful ops) (decP : Bytes → Option P) (p : Prefix) (v : Nat) (S : P) (a b c d : Nat)
+    (base : Option Base) (ws : List Owned) (h : checkOutputsPrefix ops decP p v S a b c d base = .ok ws)
+    (Rm : Bytes) (hRm : mainKey ops p = some Rm) (i : Nat) (hi : i < p.outs.length) (k : Bytes) (t : UInt8)
+    (ht : p.outs[i].target = .tagged k t)
+    (hmain : ∀ R, ops.dec Rm = some R → t ≠ viewTagOf ops (derive ops v R) i)
+    (hadd : ∀ K R, (addKeys ops p)[i]? = some K → ops.dec K = some R → t ≠ viewTagOf ops (derive ops v R) i) :
+    ¬ ∃ w ∈ ws, w.index = i := by
+  refine C07_not_addressed_not_reported L decP p v S a b c d base ws h Rm hRm i hi ?_ ?_
+  · rintro ⟨idx, _, hA⟩
+    exact not_addressed_of_wrong_tag ops v S _ i Rm k t ht hmain idx hA
+  · rintro K hK ⟨idx, _, hA⟩
+    exact not_addressed_of_wrong_tag ops v S _ i K k t ht (fun R hR => hadd K R hK hR) idx hA
+
+/-- the hypotheses of `C07_wrong_tag_not_reported` about the tags are satisfiable (a hash whose first byte is never 7) -/
+example : ∃ (Q : Type) (_ : AddCommGroup Q) (o : CryptoOps Q) (t : UInt8), Lawful o ∧ ∀ D i, t ≠ viewTagOf o D i :=
+  ⟨_, _, zmodOps, 7, zmodOps_lawful, fun _ _ => by show (7 : UInt8) ≠ ([] : List UInt8).headD 0; decide⟩
+
+/-- **Out-of-range subaddress ⇒ not reported.** The output at position `n` was built by the sender for the wallet's address
+at index `(i,j)` with the published key `K = txKey r dest + T`, and no in-range index has the spend key `S'(i,j)` (for an
+index outside the ranges this is the statement that subaddress spend keys do not collide — the hash assumption, stated
+here as the explicit hypothesis `hno`). Then `K` addresses no in-range index at `n`; so if `K` is the main key and the
+additional key at `n` (if any) addresses nothing, or `K` is the additional key at `n` and the main key addresses nothing,
+position `n` is not reported. -/
+theorem C07_out_of_range_not_reported (L : Lawful ops) (decP : Bytes → Option P) (p : Prefix) (v : Nat) (S : P) (a b c d : Nat)
+    (base : Option Base) (ws : List Owned) (h : checkOutputsPrefix ops decP p v S a b c d base = .ok ws)
+    (Rm : Bytes) (hRm : mainKey ops p = some Rm) (n : Nat) (hn : n < p.outs.length)
+    (i j r : Nat) (T : P) (hT : 8 • T = 0)
+    (hout : p.outs[n].target = .key (ops.enc (Spec.Sender.sendKey (specPrims ops) r (Spec.Sender.destAt (specPrims ops) v S i j) n)) ∨
+      p.outs[n].target = .tagged (ops.enc (Spec.Sender.sendKey (specPrims ops) r (Spec.Sender.destAt (specPrims ops) v S i j) n))
+        (Spec.Sender.sendTag (specPrims ops) r (Spec.Sender.destAt (specPrims ops) v S i j) n))
+    (hno : ∀ idx', InRange a b c d idx' → subSpendPub ops v S idx'.1 idx'.2 ≠ subSpendPub ops v S i j)
+    (hK : (ops.enc (Spec.Sender.txKey (specPrims ops) r (Spec.Sender.destAt (specPrims ops) v S i j) + T) = Rm ∧
+        ∀ K, (addKeys ops p)[n]? = some K → ¬ AddressedVia ops v S a b c d p.outs[n] n K) ∨
+      ((addKeys ops p)[n]? = some (ops.enc (Spec.Sender.txKey (specPrims ops) r (Spec.Sender.destAt (specPrims ops) v S i j) + T)) ∧
+        ¬ AddressedVia ops v S a b c d p.outs[n] n Rm)) :
+    ¬ ∃ w ∈ ws, w.index = n := by
+  have hA := C07_sender_recognised L v S i j r n T hT p.outs[n] hout
+  have hnot : ¬ AddressedVia ops v S a b c d p.outs[n] n
+      (ops.enc (Spec.Sender.txKey (specPrims ops) r (Spec.Sender.destAt (specPrims ops) v S i j) + T)) := by
+    rintro ⟨idx', hr', hA'⟩
+    exact hno idx' hr' (addressed_spend_unique ops v S _ n _ idx' (i, j) hA' hA)
+  refine C07_not_addressed_not_reported L decP p v S a b c d base ws h Rm hRm n hn ?_ ?_
+  · rcases hK with ⟨e, _⟩ | ⟨_, h2⟩
+    · rw [← e]; exact hnot
+    · exact h2
+  · intro K hKn
+    rcases hK with ⟨_, h2⟩ | ⟨e, _⟩
+    · exact h2 K hKn
+    · rw [e] at hKn; cases hKn; exact hnot
+
+/-- `hno` is satisfiable (trivially so for empty ranges; for non-empty ones it is the no-collision assumption) -/
+example (v : Nat) (S : P) (i j : Nat) :
+    ∀ idx', InRange 0 0 0 0 idx' → subSpendPub ops v S idx'.1 idx'.2 ≠ subSpendPub ops v S i j :=
+  fun _ hr => absurd hr.2.1 (Nat.not_lt_zero _)
+
+/-- **The reported index is exact** when the subaddress spend keys of the scanned ranges are pairwise different (`hinj`; the
+hash assumption made explicit): under the hypotheses of `C07_complete` the reported index IS `idx`. -/
+theorem C07_index_exact (L : Lawful ops) (decP : Bytes → Option P) (p : Prefix) (v : Nat) (S : P) (a b c d : Nat)
+    (base : Option Base) (ws : List Owned) (h : checkOutputsPrefix ops decP p v S a b c d base = .ok ws)
+    (Rm : Bytes) (hRm : mainKey ops p = some Rm) (i : Nat) (hi : i < p.outs.length) (K : Bytes) (idx : Nat × Nat)
+    (hr : InRange a b c d idx) (hA : Addressed ops v S p.outs[i] i K idx)
+    (hK : K = Rm ∨ ((addKeys ops p)[i]? = some K ∧ ¬ AddressedVia ops v S a b c d p.outs[i] i Rm))
+    (hinj : ∀ x y, InRange a b c d x → InRange a b c d y →
+      subSpendPub ops v S x.1 x.2 = subSpendPub ops v S y.1 y.2 → x = y) :
+    ∃ w ∈ ws, w.index = i ∧ w.out = p.outs[i] ∧ w.txKey = K ∧ w.sub = idx := by
+  obtain ⟨w, hw, h1, h2, h3, h4, h5, _⟩ := C07_complete L decP p v S a b c d base ws h Rm hRm i hi K idx hr hA hK
+  exact ⟨w, hw, h1, h2, h3, hinj _ _ h4 hr h5⟩
+
+/-- … and for the sender: the output built for the in-range index `(i,j)` is reported WITH the index `(i,j)` -/
+theorem C07_sender_reported_exact (L : Lawful ops) (decP : Bytes → Option P) (p : Prefix) (v : Nat) (S : P) (a b c d : Nat)
+    (base : Option Base) (ws : List Owned) (h : checkOutputsPrefix ops decP p v S a b c d base = .ok ws)
+    (Rm : Bytes) (hRm : mainKey ops p = some Rm) (n : Nat) (hn : n < p.outs.length)
+    (i j r : Nat) (T : P) (hT : 8 • T = 0) (hr : InRange a b c d (i, j))
+    (hout : p.outs[n].target = .key (ops.enc (Spec.Sender.sendKey (specPrims ops) r (Spec.Sender.destAt (specPrims ops) v S i j) n)) ∨
+      p.outs[n].target = .tagged (ops.enc (Spec.Sender.sendKey (specPrims ops) r (Spec.Sender.destAt (specPrims ops) v S i j) n))
+        (Spec.Sender.sendTag (specPrims ops) r (Spec.Sender.destAt (specPrims ops) v S i j) n))
+    (hK : ops.enc (Spec.Sender.txKey (specPrims ops) r (Spec.Sender.destAt (specPrims ops) v S i j) + T) = Rm ∨
+      ((addKeys ops p)[n]? = some (ops.enc (Spec.Sender.txKey (specPrims ops) r (Spec.Sender.destAt (specPrims ops) v S i j) + T)) ∧
+        ¬ AddressedVia ops v S a b c d p.outs[n] n Rm))
+    (hinj : ∀ x y, InRange a b c d x → InRange a b c d y →
+      subSpendPub ops v S x.1 x.2 = subSpendPub ops v S y.1 y.2 → x = y) :
+    ∃ w ∈ ws, w.index = n ∧ w.out = p.outs[n] ∧
+      w.txKey = ops.enc (Spec.Sender.txKey (specPrims ops) r (Spec.Sender.destAt (specPrims ops) v S i j) + T) ∧
+      w.sub = (i, j) :=
+  C07_index_exact L decP p v S a b c d base ws h Rm hRm n hn _ (i, j) hr
+    (C07_sender_recognised L v S i j r n T hT p.outs[n] hout) hK hinj
+
+/-- `hinj` is satisfiable: a range with a single index -/
+example (v : Nat) (S : P) : ∀ x y : Nat × Nat, InRange 0 1 0 1 x → InRange 0 1 0 1 y →
+    subSpendPub ops v S x.1 x.2 = subSpendPub ops v S y.1 y.2 → x = y := by
+  intro x y hx hy _
+  obtain ⟨x1, x2⟩ := x; obtain ⟨y1, y2⟩ := y
+  unfold InRange at hx hy; simp only at hx hy
+  have : x1 = y1 := by omega
+  have : x2 = y2 := by omega
+  subst_vars; rfl
+
+omit [AddCommGroup P] in
+/-- **Which output determines the error** (strengthens part 2 of `C07_errors`): an error other than `NoTxPublicKey` is the
+error of the opening step of the FIRST matched position whose opening fails — every matched position before it opened
+successfully (the iterator pipeline is lazy and `collect` stops at the first `Err`). -/
+theorem C07_errors_first (decP : Bytes → Option P) (p : Prefix) (v : Nat) (S : P) (a b c d : Nat) (base : Option Base)
+    (e : ScanErr) (he : checkOutputsPrefix ops decP p v S a b c d base = .error e) (hne : mainKey ops p ≠ none) :
+    ∃ i, ∃ hi : i < p.outs.length, ∃ idx K Rm, mainKey ops p = some Rm ∧
+      matchOutput ops (Checker.new ops v S a b c d) p.outs[i] i Rm (addKeys ops p)[i]? = some (i, idx, K) ∧
+      openStep ops decP v base i K = .error e ∧
+      ∀ i' (hi' : i' < p.outs.length), i' < i → ∀ idx' K',
+        matchOutput ops (Checker.new ops v S a b c d) p.outs[i'] i' Rm (addKeys ops p)[i']? = some (i', idx', K') →
+        ∃ op, openStep ops decP v base i' K' = .ok op := by
+  rcases prefix_error ops decP p v S a b c d base e he with ⟨hm, _⟩ | ⟨Rm, hRm, hgo⟩
+  · exact absurd hm hne
+  · obtain ⟨j, hj, idx, K, h1, h2, h3⟩ := go_error_first ops decP _ base Rm p.outs 0 _ e hgo
+    rw [Nat.zero_add] at h1 h2
+    refine ⟨j, hj, idx, K, Rm, hRm, h1, h2, ?_⟩
+    intro i' hi' hlt idx' K' hm'
+    have := h3 i' hi' hlt idx' K' (by rw [Nat.zero_add]; exact hm')
+    rw [Nat.zero_add] at this
+    exact this
+
+omit [AddCommGroup P] in
+/-- **When the scan is `Ok`.** With a transaction key present, the scan returns `Ok` as soon as the opening step succeeds
+for every position that MATCHES; nothing is required of the other outputs (their ecdh / commitment entries may be missing
+or garbage). For honest RingCT transactions the premise is `C08_sender_roundtrip` (composed in `C08_honest_scan_ok`). -/
+theorem C07_ok_of_matched_openings (decP : Bytes → Option P) (p : Prefix) (v : Nat) (S : P) (a b c d : Nat) (base : Option Base)
+    (Rm : Bytes) (hRm : mainKey ops p = some Rm)
+    (hop : ∀ i (hi : i < p.outs.length) idx K,
+      matchOutput ops (Checker.new ops v S a b c d) p.outs[i] i Rm (addKeys ops p)[i]? = some (i, idx, K) →
+      ∃ op, openStep ops decP v base i K = .ok op) :
+    ∃ ws, checkOutputsPrefix ops decP p v S a b c d base = .ok ws := by
+  unfold checkOutputsPrefix; rw [checkOutputsWith_eq, hRm]
+  apply go_ok_of_matched_open
+  intro j hj idx K hm
+  rw [Nat.zero_add] at hm ⊢
+  exact hop j hj idx K hm
+
+omit [AddCommGroup P] in
+/-- **`SubKeyChecker::check` is `check_with_key_generator` on the generator of that transaction key** (the two public lookup
+functions of onetime_key.rs have the same body; in the model this is the definition, the Rust side is tied by the harness
+operation `c07_check`, which calls both on the same inputs). -/
+theorem C07_check_eq (ck : Checker P) (i : Nat) (key R : P) :
+    ck.check ops i key R = ck.checkWithKeyGenerator ops (derive ops ck.v R) i key ∧
+    ck.check ops i key R = tblGet ck.table (ops.enc (ops.sub key (pubOf ops (rvnScalar ops (derive ops ck.v R) i)))) :=
+  ⟨rfl, rfl⟩
+
+/-- **Direct lookup: `SubKeyChecker::check` finds exactly the addressed in-range indices.** For a checker built by
+`SubKeyChecker::new`: `check(i, P_i, R)` returns `Some(idx)` iff `idx` is in range, `P_i = Hs(8·v·R ‖ i)·G + S'(idx)` and `idx`
+is the last inserted index with that spend key. -/
+theorem C07_check_sound (L : Lawful ops) (v : Nat) (S : P) (a b c d : Nat) (i : Nat) (key R : P) (idx : Nat × Nat)
+    (h : (Checker.new ops v S a b c d).check ops i key R = some idx) :
+    InRange a b c d idx ∧ key = rvnScalar ops (derive ops v R) i • ops.base + subSpendPub ops v S idx.1 idx.2 ∧
+    ∀ idx', InRange a b c d idx' → subSpendPub ops v S idx'.1 idx'.2 = subSpendPub ops v S idx.1 idx.2 →
+      idx' = idx ∨ LexLt idx' idx := by
+  unfold Checker.check Checker.checkWithKeyGenerator at h
+  rw [new_v] at h
+  obtain ⟨hr, hkey, hmax⟩ := tblGet_new_some ops v S a b c d _ idx h
+  refine ⟨hr, (candidate_iff L _ _ _).mp hkey, ?_⟩
+  intro idx' hr' he
+  exact hmax idx' hr' (by rw [he, ← hkey])
+
+/-- … and completeness of the direct lookup -/
+theorem C07_check_complete (L : Lawful ops) (v : Nat) (S : P) (a b c d : Nat) (i : Nat) (R : P) (idx : Nat × Nat)
+    (hr : InRange a b c d idx) :
+    ∃ idx', (Checker.new ops v S a b c d).check ops i
+        (rvnScalar ops (derive ops v R) i • ops.base + subSpendPub ops v S idx.1 idx.2) R = some idx' ∧
+      subSpendPub ops v S idx'.1 idx'.2 = subSpendPub ops v S idx.1 idx.2 := by
+  have hkey := (candidate_iff L (rvnScalar ops (derive ops v R) i • ops.base + subSpendPub ops v S idx.1 idx.2)
+    (subSpendPub ops v S idx.1 idx.2) (rvnScalar ops (derive ops v R) i)).mpr rfl
+  unfold Checker.check Checker.checkWithKeyGenerator
+  rw [new_v]
+  cases hg : tblGet (Checker.new ops v S a b c d).table (ops.enc (ops.sub
+      (rvnScalar ops (derive ops v R) i • ops.base + subSpendPub ops v S idx.1 idx.2)
+      (pubOf ops (rvnScalar ops (derive ops v R) i)))) with
+  | none => exact absurd hkey.symm (tblGet_new_none ops v S a b c d _ hg idx hr)
+  | some idx' =>
+    refine ⟨idx', rfl, ?_⟩
+    have := (tblGet_new_some ops v S a b c d _ idx' hg).2.1
+    rw [hkey] at this
+    exact (L.enc_inj this).symm
+
+/-! ### From the sender's extra bytes (C16 composed) -/
+
+omit [AddCommGroup P] in
+/-- **The keys the scan uses are the sender's first keys.** If the extra field of the prefix is the serialization of a
+well-formed sub-field sequence `fs` (what a sender writes: `ExtraField` → `RawExtraField`; well-formedness as in C16, keys
+valid for `PublicKey::from_slice`), then the transaction key used by the scan is the key of the FIRST `TxPublicKey` sub-field
+of `fs` and the additional keys are those of the FIRST `AdditionalPublickKey` sub-field (none if there is none). -/
+theorem C07_keys_of_sender_extra (p : Prefix) (fs : List SubField) (hw : WFSeq (validKey ops) fs)
+    (hp : p.extra = (fs.map encSub).flatten) :
+    mainKey ops p = txPubkey fs ∧ addKeys ops p = (txAdditionalPubkeys fs).getD [] := by
+  have h := tryParse_flat (validKey ops) fs hw
+  unfold flat at h
+  unfold mainKey addKeys rawTryParse
+  rw [hp, h]
+  exact ⟨rfl, rfl⟩
+
+/-- **End to end from the sender's extra.** The sender writes the extra field `TxPublicKey(K) :: rest` with
+`K = txKey r dest + T` (the published transaction key for the wallet's address at the in-range index `(i,j)`) and the output at
+position `n` as in `C07_sender_recognised`; then in an `Ok` scan position `n` is reported with key `K` and an index with the spend
+key of `(i,j)`. No hypothesis about the PARSED extra is left. -/
+theorem C07_sender_tx_reported (L : Lawful ops) (decP : Bytes → Option P) (p : Prefix) (v : Nat) (S : P) (a b c d : Nat)
+    (base : Option Base) (ws : List Owned) (h : checkOutputsPrefix ops decP p v S a b c d base = .ok ws)
+    (n : Nat) (hn : n < p.outs.length) (i j r : Nat) (T : P) (hT : 8 • T = 0) (hr : InRange a b c d (i, j))
+    (rest : List SubField)
+    (hw : WFSeq (validKey ops) (.txPub (ops.enc (Spec.Sender.txKey (specPrims ops) r (Spec.Sender.destAt (specPrims ops) v S i j) + T)) :: rest))
+    (hp : p.extra = ((SubField.txPub (ops.enc (Spec.Sender.txKey (specPrims ops) r (Spec.Sender.destAt (specPrims ops) v S i j) + T)) :: rest).map encSub).flatten)
+    (hout : p.outs[n].target = .key (ops.enc (Spec.Sender.sendKey (specPrims ops) r (Spec.Sender.destAt (specPrims ops) v S i j) n)) ∨
+      p.outs[n].target = .tagged (ops.enc (Spec.Sender.sendKey (specPrims ops) r (Spec.Sender.destAt (specPrims ops) v S i j) n))
+        (Spec.Sender.sendTag (specPrims ops) r (Spec.Sender.destAt (specPrims ops) v S i j) n)) :
+    ∃ w ∈ ws, w.index = n ∧
+      w.txKey = ops.enc (Spec.Sender.txKey (specPrims ops) r (Spec.Sender.destAt (specPrims ops) v S i j) + T) ∧
+      InRange a b c d w.sub ∧ subSpendPub ops v S w.sub.1 w.sub.2 = subSpendPub ops v S i j := by
+  have hk := (C07_keys_of_sender_extra p _ hw hp).1
+  exact C07_sender_reported L decP p v S a b c d base ws h _ hk n hn i j r T hT hr hout (Or.inl rfl)
+
+/-- the well-formedness hypothesis is satisfiable: the sender's key alone (32 bytes, accepted) -/
+example (L : Lawful ops) (X : P) (h32 : (ops.enc X).length = 32) : WFSeq (validKey ops) [.txPub (ops.enc X)] := by
+  show (ops.enc X).length = 32 ∧ validKey ops (ops.enc X) = true
+  exact ⟨h32, by unfold validKey; rw [L.dec_enc]; rfl⟩
+
 /-- the hypotheses are satisfiable: a lawful instance exists -/
 example : ∃ (Q : Type) (_ : AddCommGroup Q) (o : CryptoOps Q), Lawful o := ⟨_, _, zmodOps, zmodOps_lawful⟩
 
@@ -250,5 +492,10 @@ theorem C07_sound_ed25519 : type_of% (@C07_sound EdPoint _ edOps edOps_lawful) :
 theorem C07_complete_ed25519 : type_of% (@C07_complete EdPoint _ edOps edOps_lawful) := C07_complete edOps_lawful
 theorem C07_reported_iff_ed25519 : type_of% (@C07_reported_iff EdPoint _ edOps edOps_lawful) := C07_reported_iff edOps_lawful
 theorem C07_sender_reported_ed25519 : type_of% (@C07_sender_reported EdPoint _ edOps edOps_lawful) := C07_sender_reported edOps_lawful
+theorem C07_wrong_tag_not_reported_ed25519 : type_of% (@C07_wrong_tag_not_reported EdPoint _ edOps edOps_lawful) := C07_wrong_tag_not_reported edOps_lawful
+theorem C07_out_of_range_not_reported_ed25519 : type_of% (@C07_out_of_range_not_reported EdPoint _ edOps edOps_lawful) := C07_out_of_range_not_reported edOps_lawful
+theorem C07_sender_reported_exact_ed25519 : type_of% (@C07_sender_reported_exact EdPoint _ edOps edOps_lawful) := C07_sender_reported_exact edOps_lawful
+theorem C07_sender_tx_reported_ed25519 : type_of% (@C07_sender_tx_reported EdPoint _ edOps edOps_lawful) := C07_sender_tx_reported edOps_lawful
+theorem C07_check_sound_ed25519 : type_of% (@C07_check_sound EdPoint _ edOps edOps_lawful) := C07_check_sound edOps_lawful
 end Ed25519
 end C07
